@@ -74,6 +74,23 @@ func (a *vhCountActor) OnReceive(ctx vivid.ActorContext) {
 	}
 }
 
+// vhWatchActor watches its target when told to and counts the termination notices.
+type vhWatchActor struct {
+	target  vivid.ActorRef
+	notices int
+}
+
+func (a *vhWatchActor) OnReceive(ctx vivid.ActorContext) {
+	switch m := ctx.Message().(type) {
+	case *vhUserMsg:
+		ctx.Watch(a.target)
+	case *vivid.OnKilled:
+		if m.Ref.Equals(a.target) {
+			a.notices++
+		}
+	}
+}
+
 // vhTreeConsistent: every registered context is in its parent's children map
 // unless it is terminated, and every children entry designates a registered
 // context (called at quiescence, all goroutines parked).
@@ -185,6 +202,32 @@ func VH_C10_api() {
 		run(func() { _ = f.PipeTo(vivid.ActorRefs{fw}) })
 		wg.Wait()
 		_ = e1
+	case 10: // Stop racing spawns and tells: no crash, no race, nobody blocked forever
+		run(func() { _ = sys.Stop(time.Minute) })
+		run(func() {
+			r, err := sys.ActorOf(&vhCountActor{}, vivid.WithActorName("late"))
+			if err == nil {
+				sys.Tell(r, &vhUserMsg{N: 1})
+			}
+		})
+		run(func() { sys.Tell(r0, &vhUserMsg{N: 2}) })
+	case 11: // unnamed spawns from two goroutines get distinct names
+		var ra, rb vivid.ActorRef
+		var ea, eb error
+		run(func() { ra, ea = sys.ActorOf(&vhCountActor{}) })
+		run(func() { rb, eb = sys.ActorOf(&vhCountActor{}) })
+		wg.Wait()
+		vrtAssert(ea == nil && eb == nil && ra != nil && rb != nil && !ra.Equals(rb), "concurrent-unnamed-spawns-get-distinct-references")
+	case 12: // an actor watches another from its handler while that one is killed elsewhere
+		wa := &vhWatchActor{target: r0}
+		wr, _ := sys.ActorOf(wa, vivid.WithActorName("w"))
+		vrtYield()
+		run(func() { sys.Tell(wr, &vhUserMsg{N: 1}) }) // makes w call ctx.Watch(r0)
+		run(func() { sys.Kill(r0, vrtBool(), "x") })
+		wg.Wait()
+		vrtYield()
+		vrtRaceOff()
+		vrtAssert(wa.notices <= 1, "watcher-notified-at-most-once")
 	case 6: // one ActorRef shared by goroutines (cache inside the reference)
 		cl := r0.Clone()
 		run(func() { sys.Tell(cl, &vhUserMsg{N: 1}) })
